@@ -3,7 +3,6 @@ package rules
 import (
 	"fmt"
 	"go/token"
-	"go/types"
 	"strings"
 
 	"golang.org/x/tools/go/ssa"
@@ -207,12 +206,7 @@ func RuleDWriteLast(c *core.Ctx) {
 		if !outPkgs[core.PkgPathOf(fn)] || fn.Parent() != nil {
 			continue
 		}
-		var w *ssa.Parameter
-		for _, prm := range fn.Params {
-			if types.TypeString(prm.Type(), nil) == "io.Writer" {
-				w = prm
-			}
-		}
+		w := writerRoot(fn)
 		if w == nil {
 			continue
 		}
